@@ -1,6 +1,8 @@
 LEVEL = "model_checking"
 HARNESSES = [
     dict(name="pq", src=["pq.c"], variant="asan", deadline={"quick": 90, "thorough": 900}),
+    # free-running ThreadSanitizer twin: two threads, each with objects of its own (harness/common/twin.c; samples, decides nothing)
+    dict(name="own-objects-tsan", src=["../common/twin.c"], variant="tsan", cflags=["-DTWIN_C06", "-DVSX_FREE_RUNS=6"], deadline={"quick": 60, "thorough": 120}),
 ]
 ASSUMPTIONS = [
     "<=5 elements, <=5 handles, priorities {0,1,2}; item sizes 1,8,129 (quick) + 128,300 (thorough); dynamic capacity 0/1/4, static 1/3",
